@@ -70,6 +70,8 @@ type vScenario struct {
 	Replay int     `json:"replay"`
 	Mode   string  `json:"mode"`
 	Steps  []vStep `json:"steps"`
+	// Verbose: the server runs with -verbose (debug logging formats errors and their causes: more code that input reaches)
+	Verbose bool `json:"verbose"`
 }
 type vInput struct {
 	Scenarios []vScenario `json:"scenarios"`
@@ -80,6 +82,7 @@ const clientIP = "127.0.0.77" // distinctive client address (differs from every 
 type drv struct {
 	tr          *hx.Trace
 	bin         string
+	verbose     bool
 	dir         string
 	ports       []int
 	mport       int
@@ -173,6 +176,9 @@ func (d *drv) start(replay int) error {
 	d.exited = make(chan struct{})
 	d.cmd = exec.Command(d.bin, "-config", d.cfgPath(), "-metrics", fmt.Sprintf("127.0.0.1:%d", d.mport),
 		"-replay_history", strconv.Itoa(replay), "-udptimeout", "200ms")
+	if d.verbose {
+		d.cmd.Args = append(d.cmd.Args, "-verbose")
+	}
 	stderr, _ := d.cmd.StderrPipe()
 	d.cmd.Stdout = io.Discard
 	if err := d.cmd.Start(); err != nil {
@@ -539,7 +545,8 @@ func (d *drv) run(sc vScenario) {
 	defer os.RemoveAll(d.dir)
 	d.logLines = nil
 	d.clientPorts = nil
-	d.tr.Emit(map[string]any{"ev": "Scenario", "id": sc.ID, "replay": sc.Replay})
+	d.verbose = sc.Verbose
+	d.tr.Emit(map[string]any{"ev": "Scenario", "id": sc.ID, "replay": sc.Replay, "verbose": sc.Verbose})
 	started := false
 	recorded := map[string][]byte{}
 	frn0 := [][]interface{}{}
